@@ -375,11 +375,10 @@ func generate(a wh.Args) []tcase {
 
 	// (2) cancellation from inside call j, every j, with waits long enough (>= 10 ms) that the select after the
 	// cancelling call finds only ctx.Done() ready
-	maxMr := 4
-	if thorough {
-		maxMr = 8
-	}
-	for mr := 1; mr <= maxMr; mr++ {
+	for mr := 1; mr <= 8; mr++ {
+		if !thorough && (mr == 5 || mr == 7) {
+			continue
+		}
 		t := calls(mr)
 		for j := 0; j < t; j++ {
 			for _, okAt := range []int{t, j, j + 1} { // never succeeds / the cancelling call succeeds / the next one would
